@@ -6,11 +6,16 @@
 From JV Require Import Lib.Base Gen.C19PathFlags Model.C19PathMode Model.C19Cwd Spec.C19Spec Spec.C19CwdSpec
   Spec.C19Guard.
 
-Inductive mobs := MAccept (rel ab : str) | MPathErr | MValErr | MOsErr | MOther.
+Inductive mobs := MAccept (rel ab cw : str) | MPathErr | MValErr | MOsErr | MOther.
 Inductive cobs := COk (items : list item) | CFail | COsErr | COther.
 
 Inductive case :=
 | CMode (mode : str) (f : facts) (home cwd given : str) (obs : mobs)
+| CModeNonStr (obs : mobs)      (* Path(p, mode=<not a str>) *)
+| CSeq (defaults : bool) (files dirs : list str) (links : list (str * str)) (cwd0 : str) (tops : list (str * dcontent))
+       (cwd1 : str) (cpd1 : option str) (obs : cobs)
+       (* several config files one after the other: --cfg f1 --cfg f2 ... (defaults = false, every content a DBody)
+          or default_config_files = [f1, f2, ...] (defaults = true) *)
 | CCwd (files dirs : list str) (links : list (str * str)) (cwd0 top : str) (body : list node) (cwd1 : str) (cpd1 : option str) (obs : cobs).
 
 Definition item_eqb (a b : item) : bool :=
@@ -32,25 +37,26 @@ Definition res_obs_eqb (r : res (list item)) (o : cobs) : bool :=
    of known_findings/C19.txt. *)
 Definition judge_mode (fxs : fixes) (mode : str) (f : facts) (home cwd given : str) (obs : mobs) : verdict :=
   let stdio := str_eqb given [45]%N in
-  let o := path_check_fx fxs mode stdio f in
-  let so := spec_outcome mode stdio f in
+  let o := path_init_fx fxs mode given f in
+  let so := spec_init mode given f in
   let names := path_names home cwd given in
   let vm := consistent f && is_abs cwd &&
             match obs with
-            | MAccept rel ab => outcome_eqb o Accept && str_eqb rel (fst names) && str_eqb ab (snd names)
+            | MAccept rel ab cw => outcome_eqb o Accept && str_eqb rel (fst names) && str_eqb ab (snd names)
+                                   && str_eqb cw cwd          (* `cwd = os.getcwd()` resp. `cwd = path.cwd` *)
             | MPathErr => outcome_eqb o PathErr
             | MValErr => outcome_eqb o ValErr
             | MOsErr => outcome_eqb o OsErr
             | MOther => false
             end in
   let vs := match obs with
-            | MAccept rel ab => outcome_eqb so Accept && spec_names_ok home cwd given rel ab
+            | MAccept rel ab cw => outcome_eqb so Accept && spec_names_ok home cwd given rel ab && str_eqb cw cwd
             | MPathErr => outcome_eqb so PathErr
             | MValErr => outcome_eqb so ValErr
             | MOsErr | MOther => false
             end in
   (* guard = hypothesis of C19_mode_exact; invalid modes, "-" and u/s modes are not in a finding class *)
-  let k := if negb (check_mode mode) || stdio || has 117 mode || has 115 mode then 0%N
+  let k := if negb (check_mode mode) || stdio || has_nul given || has 117 mode || has 115 mode then 0%N
            else finding_class_fx fxs (flags_of mode) f in
   (* inside a finding class only the listed defect (C19_findings_exact) or the right answer is expected;
      anything else is an unlisted class *)
@@ -70,8 +76,40 @@ Definition judge_cwd (fxs : fixes) (files dirs : list str) (links : list (str * 
   let k' := if negb (N.eqb k 0) && negb vm && negb vs then 99%N else k in
   {| v_model := vm; v_class := k'; v_spec := vs |}.
 
+(* sequences: the observation lists the path values sorted by id; the model lists them in merge order *)
+Definition id_of (it : item) : nat := let '(i, _, _, _) := it in i.
+Fixpoint insert_item (x : item) (l : list item) : list item :=
+  match l with
+  | [] => [x]
+  | y :: l' => if Nat.leb (id_of x) (id_of y) then x :: l else y :: insert_item x l'
+  end.
+Definition sort_items (l : list item) : list item := fold_right insert_item [] l.
+Definition sort_res (r : res (list item)) : res (list item) :=
+  match r with Ok xs => Ok (sort_items xs) | e => e end.
+
+Definition judge_seq (fxs : fixes) (defaults : bool) (files dirs : list str) (links : list (str * str)) (cwd0 : str)
+                     (tops : list (str * dcontent)) (cwd1 : str) (cpd1 : option str) (obs : cobs) : verdict :=
+  let s0 := {| cwd := cwd0; cpd := None |} in
+  let dir_ok := fun d => mem_str d dirs in
+  let btops := map (fun tc => (fst tc, body_of (snd tc))) tops in
+  let '(s1, r) := if defaults then run_defaults fxs files links dir_ok s0 tops
+                  else run_cfgs fxs files links dir_ok s0 btops [] in
+  let sp := if defaults then spec_defaults files links cwd0 tops else spec_cfgs files links cwd0 btops [] in
+  let vm := is_abs cwd0 && str_eqb (cwd s1) cwd1 && option_eqb str_eqb (cpd s1) cpd1 && res_obs_eqb (sort_res r) obs in
+  let vs := str_eqb cwd1 cwd0 && option_eqb str_eqb None cpd1 && res_obs_eqb (sort_res sp) obs in
+  (* guard = hypothesis of C19_cfg_sequence_follows_config / C19_default_files_follow_config *)
+  let k := seq_class files links (fx_lf fxs) (fx_rp fxs) dir_ok cwd0 btops in
+  let k' := if negb (N.eqb k 0) && negb vm && negb vs then 99%N else k in
+  {| v_model := vm; v_class := k'; v_spec := vs |}.
+
+Definition judge_nonstr (obs : mobs) : verdict :=
+  let ok := match obs with MValErr => outcome_eqb path_init_nonstr_mode ValErr | _ => false end in
+  {| v_model := ok; v_class := 0; v_spec := match obs with MValErr => true | _ => false end |}.
+
 Definition judge1_fx (fxs : fixes) (c : case) : verdict :=
   match c with
+  | CModeNonStr obs => judge_nonstr obs
+  | CSeq defaults files dirs links cwd0 tops cwd1 cpd1 obs => judge_seq fxs defaults files dirs links cwd0 tops cwd1 cpd1 obs
   | CMode mode f home cwd given obs => judge_mode fxs mode f home cwd given obs
   | CCwd files dirs links cwd0 top body cwd1 cpd1 obs => judge_cwd fxs files dirs links cwd0 top body cwd1 cpd1 obs
   end.
